@@ -1,6 +1,6 @@
 (* C06 — a rejected PoA message leaves no trace. *)
 From stdpp Require Import gmap.
-Require Import Model.Base Model.Ante Model.Current Model.State Model.Staking Model.Slashing Model.Poa Model.App proofs.L1Basic.
+Require Import Model.Base Model.Ante Model.Current Model.State Model.Staking Model.Slashing Model.Poa Model.App proofs.L1Basic proofs.InvSeqs.
 
 (* whatever fails — authority, validation, the 30% limit after the power was applied, an unknown or
    unbonded target, a later message of the same transaction — the committed chain state is the one
@@ -16,3 +16,36 @@ Proof. exact failed_tx_no_trace. Qed.
 Theorem C06_ante_reject_unchanged : forall c tx e,
   cur_stk_decorator (height c) (map ante_view tx) = Some e -> deliver_tx c tx = (c, TErr e).
 Proof. exact ante_reject_unchanged. Qed.
+
+(* nothing but the transaction wrapper reads or writes the sequence numbers: every handler commutes with replacing them *)
+Theorem C06_handlers_ignore_sequence_numbers : forall c q m,
+  exec_msg (with_seqs c q) m = match exec_msg c m with MOk c' => MOk (with_seqs c' q) | MErr e => MErr e end.
+Proof. exact exec_msg_seqs. Qed.
+
+(* within a block: with a failing transaction in it, every other transaction gets the result it gets without it, and
+   the state handed to the EndBlocker differs in sequence numbers only *)
+Theorem C06_failing_tx_is_invisible_to_the_rest_of_the_block : forall c txs1 tx txs2 c1 e,
+  deliver_tx (fst (deliver_txs c txs1)) tx = (c1, TErr e) ->
+  let with_it := deliver_txs c (txs1 ++ tx :: txs2) in
+  let without := deliver_txs c (txs1 ++ txs2) in
+  same_but_seqs (fst without) (fst with_it) /\
+  snd with_it = firstn (length txs1) (snd without) ++ TErr e :: skipn (length txs1) (snd without).
+Proof. exact failing_tx_is_invisible. Qed.
+
+(* the block as a whole: the state it commits is the state it would have committed without the failing transaction, apart
+   from sequence numbers — validator records, powers, pending list, per-block budget, slashing records, pools and supply
+   are the same field by field — and so are the validator updates, CometBFT's sets and the halt status *)
+Theorem C06_block_commits_the_same_state_without_the_failing_tx : forall w b txs1 tx txs2,
+  let c1 := match begin_block (with_clock (w_chain w) (height (w_chain w) + 1) (now (w_chain w) + b_dt b))
+                              (match c_prev (w_comet w) with Some vs => sorted_votes vs | None => [] end) (b_absent b) with inl c1 => c1 | inr _ => w_chain w end in
+  (exists cf e, deliver_tx (fst (deliver_txs c1 txs1)) tx = (cf, TErr e)) ->
+  let w1 := fst (run_block w (block_with b (txs1 ++ tx :: txs2))) in
+  let w2 := fst (run_block w (block_with b (txs1 ++ txs2))) in
+  same_but_seqs (w_chain w2) (w_chain w1) /\ w_comet w1 = w_comet w2 /\ w_halted w1 = w_halted w2 /\
+  option_map bo_updates (snd (run_block w (block_with b (txs1 ++ tx :: txs2)))) = option_map bo_updates (snd (run_block w (block_with b (txs1 ++ txs2)))).
+Proof. exact block_ignores_failing_tx. Qed.
+
+(* what "differs in sequence numbers only" means *)
+Theorem C06_same_but_seqs_meaning : forall c d, same_but_seqs c d ->
+  height d = height c /\ now d = now c /\ stk d = stk c /\ sl d = sl c /\ bk d = bk c /\ poa d = poa c.
+Proof. intros c d [q ->]. repeat split. Qed.
